@@ -257,7 +257,7 @@ class Var:
                             # double quote.
                             pass
                         else:
-                            val = special_formats[fmt](val, name, md)
+                            val = self.special_format(fmt, val, name, md)
                     elif fmt == '':
                         val = ''
                     else:
@@ -286,7 +286,7 @@ class Var:
                         # double quote.
                         pass
                     else:
-                        val = special_formats[fmt](val, name, md)
+                        val = self.special_format(fmt, val, name, md)
                 elif fmt == '':
                     val = ''
                 else:
@@ -315,7 +315,10 @@ class Var:
             if f.__name__ == 'html_quote' and isinstance(val, TaintedString):
                 # TaintedStrings will be quoted by default, don't double quote.
                 continue
-            val = f(val)
+            if f is html_quote:
+                val = f(val, encoding=self.encoding)
+            else:
+                val = f(val)
 
         if 'size' in args:
             size = args['size']
@@ -346,6 +349,12 @@ class Var:
         return val
 
     __call__ = render
+
+    def special_format(self, fmt, val, name, md):
+        if fmt == 'html-quote':
+            # bytes are decoded with the template's encoding
+            return html_quote(val, name, md, encoding=self.encoding)
+        return special_formats[fmt](val, name, md)
 
 
 class Call:
